@@ -272,13 +272,14 @@ def _optimize_real(fam):
     return fn
 
 
-def _optimize_free(max_iter, fixed=(2,)):
+def _optimize_free(max_iter, fixed=(2,), info="sym"):
     def fn(P, g):
         import numpy
 
         env = install_stubs(P, g)
         kinds, es = ["SE2", "R2", "SE2"], [(0, 1), (2, 1), (2, 0, 1)]
-        graph, verts, eobjs, ids = structure_graph(P, g, kinds, es, set(fixed), symbolic_ids=False, epoch_chi2=True)
+        graph, verts, eobjs, ids = structure_graph(P, g, kinds, es, set(fixed), symbolic_ids=False, epoch_chi2=True, info=info)
+        infos = [e.information for e in eobjs]
         keep = [(numpy.array(e.information, copy=True), numpy.array(e._err, copy=True), [numpy.array(j, copy=True) for j in e._jacs], list(e.vertex_ids)) for e in eobjs]
         flags = [v.fixed for v in verts]
         import warnings
@@ -288,6 +289,7 @@ def _optimize_free(max_iter, fixed=(2,)):
             graph.optimize(tol=P.real("tol", lo=0.0, hi=1.0), max_iter=max_iter, fix_first_pose=False, verbose=False)
         for k, (e, (om, err, jacs, vids)) in enumerate(zip(eobjs, keep)):
             P.check_eq("info_%d" % k, e.information, om)
+            P.check("info_same_object_%d" % k, e.information is infos[k])
             P.check_eq("err_%d" % k, e._err, err)
             for a, j in enumerate(jacs):
                 P.check_eq("jac_%d_%d" % (k, a), e._jacs[a], j)
@@ -364,6 +366,36 @@ def _fp_restore(kind):
     return fn
 
 
+def _fp_repeat(P, g):
+    """IEEE binary64: numerical Jacobians and the gradient/Hessian contributions of a custom edge are bit-identical when
+    asked for again with nothing changed in between (coordinates up to 1e11, where a 1e-6 perturbation is partly or
+    wholly lost to rounding)"""
+    import numpy
+
+    with P.fp_mode(g):
+        a = g.PoseR2([P.fp("a0", -100, 100), P.fp("a1", -1e11, 1e11)])
+        c = [P.fp("c0", -100, 100), P.fp("c1", -1e11, 1e11)]
+
+        class PriorEdge(g.BaseEdge):
+            def calc_error(self):
+                p = self.vertices[0].pose
+                return numpy.array([p[0] - c[0], p[1] - c[1]], dtype=object)
+
+            def is_valid(self):
+                return True
+
+        v = g.Vertex(0, a)
+        e = PriorEdge([0], numpy.eye(2), None, vertices=[v])
+        e1 = e.calc_error()
+        J1 = e.calc_jacobians()
+        J2 = e.calc_jacobians()
+        J3 = e.calc_jacobians()
+        e2 = e.calc_error()
+        P.check_bits("error_repeat", e2, e1)
+        P.check_bits("jacobian_repeat", J2[0], J1[0])
+        P.check_bits("jacobian_repeat_again", J3[0], J1[0])
+
+
 def cases(tier):
     out = []
     v = 1 if tier == "quick" else 3
@@ -385,4 +417,6 @@ def cases(tier):
     for mi in (1, 2, 3):
         out.append(Case("optimize-free-it%d" % mi, _optimize_free(mi), timeout=10, validate=1, feas_timeout_ms=1500, val_tol=1e-3))
     out.append(Case("optimize-free-nofixed-it1", _optimize_free(1, fixed=()), timeout=10, validate=1, feas_timeout_ms=1500, val_tol=1e-3))
+    out.append(Case("optimize-free-asymmetric-information-it2", _optimize_free(2, info="full"), timeout=10, validate=1, feas_timeout_ms=1500, val_tol=1e-3))
+    out.append(Case("fp-repeat-R2", _fp_repeat, timeout=120, old_timeout=120, validate=3, shadow=False))
     return out
